@@ -274,17 +274,24 @@ func (d Diff) RenderMerge() (string, error) {
 		// A noop JSON Merge Patch should be an empty object
 		return "{}", nil
 	}
-	for _, e := range d {
+	// Render void as null in a copy. The Add slices are shared with
+	// the caller's diff.
+	nullified := make(Diff, len(d))
+	for i, e := range d {
 		if !e.Metadata.Merge {
 			return "", fmt.Errorf("cannot render non-merge element as merge")
 		}
-		for i := range e.Add {
-			if isVoid(e.Add[i]) {
-				e.Add[i] = jsonNull{}
+		add := make([]JsonNode, len(e.Add))
+		for j, n := range e.Add {
+			if isVoid(n) {
+				n = jsonNull{}
 			}
+			add[j] = n
 		}
+		e.Add = add
+		nullified[i] = e
 	}
-	mergePatch, err := voidNode{}.Patch(d)
+	mergePatch, err := voidNode{}.Patch(nullified)
 	if err != nil {
 		return "", err
 	}
